@@ -102,6 +102,8 @@ class Simulation:
             return self.raw_args
 
         # Compute new otherwise
+        # The model's own values may have been changed since the last simulation
+        current = self.model.get_parameter_values()
         for res, p in zip(self.raw_variables, self.raw_parameters, strict=True):
             self.model.update_parameters(p)
             self.raw_args.append(
@@ -117,6 +119,7 @@ class Simulation:
                     include_readouts=True,
                 )
             )
+        self.model.update_parameters(current)
         return self.raw_args
 
     def _select_data(
